@@ -30,23 +30,32 @@ def solve(pc, goal, timeout_ms):
     g = z3.simplify(goal)
     if z3.is_true(g):
         return "unsat", None, "trivial", 0.0
+    first = min(timeout_ms, 3000)
     s = z3.Solver()
-    s.set("timeout", timeout_ms)
+    s.set("timeout", first)
     s.add(*pc)
     s.add(z3.Not(goal))
     r = s.check()
-    dt = time.time() - t0
     if r == z3.unsat:
-        return "unsat", None, "z3", dt
+        return "unsat", None, "z3", time.time() - t0
     if r == z3.sat:
-        return "sat", s.model(), "z3", dt
-    # retry with cvc5 on the SMT-LIB text
+        return "sat", s.model(), "z3", time.time() - t0
+    # z3 undecided within the short budget: cvc5 on the SMT-LIB text, then z3 with the full budget
     smt = s.to_smt2()
     verdict = cvc5_check(smt, timeout_ms)
-    dt = time.time() - t0
     if verdict == "unsat":
-        return "unsat", None, "cvc5", dt
-    return "unknown", None, "z3+cvc5", dt
+        return "unsat", None, "cvc5", time.time() - t0
+    if timeout_ms > first:
+        s2 = z3.Solver()
+        s2.set("timeout", timeout_ms)
+        s2.add(*pc)
+        s2.add(z3.Not(goal))
+        r = s2.check()
+        if r == z3.unsat:
+            return "unsat", None, "z3", time.time() - t0
+        if r == z3.sat:
+            return "sat", s2.model(), "z3", time.time() - t0
+    return "unknown", None, "z3+cvc5", time.time() - t0
 
 
 def cvc5_check(smt, timeout_ms):
@@ -97,6 +106,7 @@ def run_contract_case(contract: Contract, case, registry: Registry, tier, seed):
     }
     ex = Explorer(max_paths=contract.max_paths)
     registry.enable(contract.uses)
+    registry.attr_overrides = {(None, k): v for k, v in getattr(contract, "attr_overrides", {}).items()}
 
     def body(path):
         I = Interp(path, registry)
